@@ -11,6 +11,7 @@ from sa import alpha
 ix = RepoIndex()
 out = {}
 funcs = {}
+globs = {}
 for p in ix.pyfiles():
     try:
         with warnings.catch_warnings():
@@ -22,8 +23,10 @@ for p in ix.pyfiles():
     snap = alpha.snapshot(tree)
     out[p] = {q: v for q, v in snap.items() if v}
     funcs[p] = sorted(q for q, _f in alpha.functions(tree))
+    globs[p] = sorted({t.id for st in tree.body if isinstance(st, (ast.Assign, ast.AugAssign, ast.AnnAssign)) for t in ast.walk(st) if isinstance(t, ast.Name) and isinstance(t.ctx, ast.Store)})
 d = os.path.join('/verif', 'sa', 'reference')
 os.makedirs(d, exist_ok=True)
 json.dump(out, open(os.path.join(d, 'locals.json'), 'w'), sort_keys=True, separators=(',', ':'))
 json.dump(funcs, open(os.path.join(d, 'functions.json'), 'w'), sort_keys=True, indent=0)
+json.dump(globs, open(os.path.join(d, 'globals.json'), 'w'), sort_keys=True, indent=0)
 print('pinned', len(out), 'files,', sum(len(v) for v in out.values()), 'functions')
